@@ -40,7 +40,7 @@ func init() {
 		Rule: "sswu cases = field elements u: the three exceptional inputs 0 and ±sqrt(-1/Z) (computed by the oracle), ±1, ±2, the structured list mod p (boundaries, 2^k, 2^k±1, p-2^k, limb-perturbed p, R mod p), " +
 			"Montgomery-structured values, (u,-u) pairs, PRNG values; each is mapped by SSWU and then by the isogeny. iso cases = points of E' constructed by the oracle from chosen abscissae (structured + PRNG, both signs), not only SSWU outputs. " +
 			"Oracle: RFC 9380 6.6.2 (non-optimised: inv0, is_square, sqrt, sgn0) and the E.1 rational map in math/big; checks: SSWU output equals the oracle's point, lies on E', sgn0(y)=sgn0(u); isogeny output equals the oracle's, is a valid canonical point with y^2=x^3+7; no panic. " +
-			"Sequences: u then -u, u twice, 0 between inputs (what a memo keyed on u^2 gets wrong); steered inputs: u solved so that u^2, tv1, tv3 = tv2+1 or tv6 (the operands of the multiplications by Z and B' = 1771), resp. x'^2, x'^3 in the isogeny, have structured stored values. Concurrent batches: 8 goroutines run the whole map (SSWU then isogeny) simultaneously on their own inputs, each output judged against the oracle. non-trivial = all; distinct by input.",
+			"Sequences: u then -u, u twice, 0 between inputs (what a memo keyed on u^2 gets wrong); steered inputs: u solved so that u^2, tv1, tv3 = tv2+1 or tv6 (the operands of the multiplications by Z and B' = 1771), resp. x'^2, x'^3 in the isogeny, have structured stored values. Concurrent batches: 8 goroutines run the whole map (SSWU then isogeny) simultaneously on their own inputs, each output judged against the oracle. Steering (steer.go) also covers the inverted values (hard divstep inputs, inverse-structured), the numerator of the sqrt_ratio call and the isogeny's y denominator (cubics, solved with the oracle's root finder), the SSWU output placed on the points E' shares with secp256k1; every other sequence reloads ONE field element object through the five loaders of the field API; a soak of 2^18+2^10 isogeny evaluations on one input. non-trivial = all; distinct by input.",
 		NewCase:  func() any { return &c11Case{} },
 		Generate: c11Generate,
 		Run:      c11Run,
